@@ -10,9 +10,7 @@ from fparser.two.utils import Base, walk
 
 
 def units(tier):
-    if tier == "quick":
-        return PG.program_units(tier, "copy_prog", ics=(True, False), rotate=True)
-    return PG.program_units(tier, "copy_prog", ics=(True, False))
+    return PG.program_units(tier, "copy_prog", ics=(True, False), rotate=True)
 
 
 def meta(tier):
@@ -21,7 +19,7 @@ def meta(tier):
                             standards=["f2003", "f2008"], ignore_comments=[True, False]),
                 assumptions=["the outcome does not depend on leaf values: the solver certifies 'for all lexemes', class coverage comes from the catalogue",
                              "symbolic leaves pickle through a same-process token table"],
-                budget_s=400 if q else 3300, unit_budget_s=60 if q else 300)
+                budget_s=400 if q else 2400, unit_budget_s=60 if q else 300)
 
 
 def _ids(t):
